@@ -329,6 +329,41 @@ theorem cli_ss_alignment (sys : Sys2) (ss : List Char) (out : List Mol2)
         injection hy1 with hy1
         exact ⟨cg, rfl, by rw [hy2, hy1]⟩
 
+/-- **`-dssp`** (`AnnotateDSSP.run_system` then `AnnotateMartiniSecondaryStructures.run_system`): if
+the run succeeds, every protein molecule with a position for which DSSP answered one class per residue
+carries that answer as `aasecstruct` and its conversion as `cgsecstruct`, residue by residue. -/
+theorem cli_dssp_alignment (sys : List (Bool × Mol2 × List Bool × List Nat)) (out : List Mol2)
+    (h : cliDssp ssCg patterns sys = .ok out) :
+    out.length = sys.length ∧
+      ∀ (i : Nat) (m : Mol2) (pos : List Bool) (ss : List Nat), sys[i]? = some (true, m, pos, ss) →
+        keysNodup (srcMol m) → (∃ p ∈ (srcMol m).zip pos, p.2 = true) →
+        ss.length = (residues (srcMol m)).length →
+        ∃ cg, convertVals ssCg patterns ss = some cg ∧
+          out[i]? = some (withDst (withSrc m (annotated (srcMol m) ss 0))
+            (annotated (dstMol m) (cg.map Char.toNat) 0)) := by
+  unfold cliDssp at h
+  cases hd : dsspAll sys with
+  | error e => rw [hd] at h; cases h
+  | ok ms =>
+    rw [hd] at h
+    simp only at h
+    obtain ⟨hl1, hi1⟩ := dsspAll_ok sys ms hd
+    obtain ⟨hl2, hi2⟩ := martiniSystem_ok _ _ _ _ h
+    refine ⟨by rw [hl2, hl1], ?_⟩
+    intro i m pos ss hi hk hp hlen
+    obtain ⟨s, hs1, hs2⟩ := hi1 i true m pos ss hi
+    rw [(annotate_dssp_alignment (srcMol m) pos ss hk hp).1 hlen] at hs1
+    injection hs1 with hs1
+    subst hs1
+    obtain ⟨y, hy1, hy2⟩ := hi2 i _ hs2
+    rw [cgsecstruct_alignment m ss hk hlen] at hy1
+    cases hc : convertVals ssCg patterns ss with
+    | none => rw [hc] at hy1; cases hy1
+    | some cg =>
+      rw [hc] at hy1
+      injection hy1 with hy1
+      exact ⟨cg, rfl, by rw [hy2, hy1]⟩
+
 /-- `-ss` with a length that cannot be reconciled is the ValueError (no shifted assignment) -/
 theorem cli_ss_mismatch_error (sys : Sys2) (ss : List Char)
     (h : reconcile (selLengths (sys.map fun p => (p.1, srcMol p.2)))
